@@ -51,7 +51,7 @@ type Gen struct {
 	Budget int
 	// options
 	ConcreteOps bool // operators chosen by forking instead of symbolic
-	ConcretePos bool // concrete token positions (line = 0, column = index)
+	ConcretePos bool // concrete token positions (column = 2*index; line = number of line breaks inside earlier literals)
 	Atoms       int  // number of atom kinds in use
 	NoFunc      bool
 	MaxList     int // max elements in argument/array/parameter lists
@@ -154,7 +154,7 @@ func (g *Gen) comment(name string) string {
 // trivia returns the LeadingComments value the lexer would attach for one of
 // the source layouts: 1 own-line comment, 2 trailing comment (same line as the
 // previous token), 3 one blank line, 4 blank line + two own-line comments,
-// 5 trailing comment followed by an own-line comment.
+// 5 trailing comment followed by an own-line comment, 6 two blank lines.
 func (g *Gen) trivia(k int) []string {
 	switch k {
 	case 1:
@@ -165,6 +165,9 @@ func (g *Gen) trivia(k int) []string {
 		return []string{"", ""}
 	case 4:
 		return []string{"", "", g.comment("c"), g.comment("d")}
+	case 6:
+		// two blank lines
+		return []string{"", "", ""}
 	default:
 		return []string{g.comment("t"), g.comment("c")}
 	}
@@ -195,6 +198,30 @@ func (g *Gen) opTok(t token.Type) int {
 		return g.tok(t, Lexeme(t))
 	}
 	return g.tok(t, "op")
+}
+
+// propNameTypes: after a dot ECMAScript takes any IdentifierName, reserved words included.
+var propNameTypes = []token.Type{token.IDENT, token.FUNCTION, token.LET, token.IF, token.ELSE, token.WHILE, token.FOR, token.RETURN, token.TRUE, token.FALSE, token.NULL}
+
+// propName emits the property name of a member access: an identifier or a
+// keyword (token level: one solver variable over both; text level: `p`, or
+// with kwprops=1 also `null` / `return`).
+func (g *Gen) propName() {
+	switch {
+	case !g.ConcreteOps:
+		g.tok(g.opIn(propNameTypes, "prop"), "p")
+	case sym.Param("kwprops", 0) == 1:
+		switch sym.Choose("prop", 3) {
+		case 0:
+			g.tok(token.IDENT, "p")
+		case 1:
+			g.tok(token.NULL, "null")
+		default:
+			g.tok(token.RETURN, "return")
+		}
+	default:
+		g.tok(token.IDENT, "p")
+	}
 }
 
 func (g *Gen) spend() bool {
@@ -349,7 +376,7 @@ func (g *Gen) Expr(ctx int) {
 		g.emit(KMember)
 		g.Callee()
 		g.kw(token.DOT)
-		g.tok(token.IDENT, "p")
+		g.propName()
 		g.emit(KIdent)
 	case eIndex:
 		g.emit(KIndex)
@@ -518,7 +545,7 @@ func (g *Gen) Callee() {
 		g.emit(KMember)
 		g.Callee()
 		g.kw(token.DOT)
-		g.tok(token.IDENT, "p")
+		g.propName()
 		g.emit(KIdent)
 	case 2:
 		g.spend()
@@ -551,7 +578,7 @@ func (g *Gen) Target() {
 		g.emit(KMember)
 		g.Callee()
 		g.kw(token.DOT)
-		g.tok(token.IDENT, "p")
+		g.propName()
 		g.emit(KIdent)
 	case 2:
 		g.spend()
@@ -981,7 +1008,22 @@ func (g *Gen) Program(maxStmts int) *Script {
 		}
 	}
 	if g.ConcretePos {
-		s.EOF.Start = token.Position{Line: 0, Column: 2 * len(g.Toks)}
+		// lines: a literal containing a line break ends one line further down and
+		// everything after it starts there (columns stay globally increasing)
+		line := 0
+		for i := range g.Toks {
+			g.Toks[i].Start.Line = line
+			if t := g.Toks[i]; t.Type == token.RAW_STRING || t.Type == token.STRING {
+				for k := 0; k < len(t.Literal); k++ {
+					if t.Literal[k] == '\n' {
+						line++
+					}
+				}
+			}
+			g.Toks[i].End.Line = line
+		}
+		s.Toks = g.Toks
+		s.EOF.Start = token.Position{Line: line, Column: 2 * len(g.Toks)}
 		s.EOF.End = s.EOF.Start
 	}
 	return s
